@@ -49,6 +49,11 @@ def walk(tr):
         if op[0] == 19 and res == "OK":
             prices = list(prices)
             prices[op[1]] = op[2]
+        if op[0] == 38 and tr.cfg[op[1]]["tokprog"] == 2:
+            # fixture: pending fee change; from here on the mint charges the schedule in force in the clock epoch
+            # (TransferFeeConfig::get_epoch_fee: the newer one from its epoch on)
+            new = op[7] >= op[6]
+            tr.cfg[op[1]]["bps"], tr.cfg[op[1]]["maxfee"] = (op[4], op[5]) if new else (op[2], op[3])
         yield op, res, banks, accts, nbanks, naccts, now, prices
         banks, accts = nbanks, naccts
 
